@@ -92,7 +92,7 @@ impl Gen {
         }
         if o.stopped {
             // get it running again most of the time
-            if rng.chance(3, 4) {
+            if rng.chance(1, 2) {
                 return vec![sc.resume(o.n, o.l, o.rewards)];
             }
         }
@@ -220,6 +220,14 @@ impl Gen {
                     2 => {
                         // early
                         ops.push(sc.deliver(&staker, &ch, b.id, b.expected.max(1)));
+                    }
+                    3 if rng.chance(1, 2) => {
+                        // the right staker on the right channel at the right time, but paying in another token
+                        if now < b.next_time_s {
+                            ops.push(Op::Advance { secs: b.next_time_s - now });
+                        }
+                        ops.push(Op::NativeMintToken { addr: staker.clone(), token: "uother".into(), amount: b.expected.max(1) });
+                        ops.push(Op::HookForeign { native_sender: staker.clone(), channel: ch.clone(), token: "uother".into(), amount: b.expected.max(1), contract: sc.q.clone(), msg: json!({"receive_unstaked_tokens": {"batch_id": b.id}}).to_string() });
                     }
                     k => {
                         if now < b.next_time_s && rng.chance(2, 3) {
@@ -381,7 +389,12 @@ impl Gen {
             1 => {
                 // trip and resume with identical totals
                 let caller = if !sc.monitors.is_empty() && rng.chance(1, 2) { rng.pick(&sc.monitors).clone() } else { sc.admin.clone() };
-                vec![sc.breaker(&caller), sc.resume(o.n, o.l, o.rewards)]
+                if rng.chance(1, 2) {
+                    // stays halted for a few steps (other actors, the relayer included, keep going)
+                    vec![sc.breaker(&caller)]
+                } else {
+                    vec![sc.breaker(&caller), sc.resume(o.n, o.l, o.rewards)]
+                }
             }
             2 => {
                 // re-base of the staked total only (the way a slash or an accounting correction is booked)
